@@ -25,14 +25,15 @@ const prop = "C17"
 
 func TestMain(m *testing.M) {
 	flag.Parse()
+	flag.Set("rapid.shrinktime", "15s")
 	vhttp.Quiet()
 	server.VerifNoShareDelay()
 	evid.Main(m, prop, "fault_enumeration",
 		"(a) share chains: rapid generates a world = STRUCTURE of a small blob store (2-3 data blobs, file with nested bytes parts, directory shapes none/flat/split(mergeSets)/nested/mixed/real-writer-split, blobs that only MENTION a ref: raw text, non-schema JSON, symlink target, file name, attribute-claim value, link-looking field on the wrong camliType, unsigned share-shaped JSON; 1-3 share claims: transitive or not, no/far-past/far-future expiry, target = any blob incl. another share or an absent ref, or a search share; 0-3 delete claims on shares or on delete claims (undelete), two signers); "+
-			"the blobs are fed to a memory store + memory index and the share handler from blobserver.CreateHandler(\"share\"). For each world EVERY tuple (b1..bk,blob) of k+1<=3 (quick) / <=4 (thorough) refs over the request alphabet (the whole world when it has <= 13 (quick) / 11 (thorough) refs, otherwise all shares + a drawn subset) is requested as GET /<blob>?via=b1,..,bk; additionally every valid chain of any length found by walking the structure, every single-element substitution/deletion/duplication of those, the same chains by HEAD/POST/PUT/DELETE, with assemble=1, and malformed refs. "+
+			"the blobs are fed to a memory store + memory index and the share handler from blobserver.CreateHandler(\"share\"). For each world EVERY tuple (b1..bk,blob) of k+1<=3 (quick) / <=4 (thorough) refs over the request alphabet (the whole world when it has <= 13 (quick) / 14 (thorough) refs, otherwise all shares + a drawn subset) is requested as GET /<blob>?via=b1,..,bk; additionally every valid chain of any length found by walking the structure, every single-element substitution/deletion/duplication of those, the same chains by HEAD/POST/PUT/DELETE, with assemble=1, and malformed refs. "+
 			"Oracle: validator over the generated structure (never parses blobs): HTTP 200 with exactly the blob's bytes <=> valid chain to a stored blob; everything else non-2xx and no stored blob's bytes in the body. "+
 			"(b) endpoints: for each high-level configuration (storage x index x share on/off) loaded by serverinit.Load+InstallHandlers under userpass/token auth, every prefix of the loaded low-level config x {GET,HEAD,POST,PUT,DELETE} x sub-paths, without / with wrong / with correct credentials (see TestEndpoints). "+
-			"non-trivial = a request whose chain has length >= 3 and is served, or is refused only because of its LAST hop / the share's state (deleted, expired, not transitive) while every earlier condition holds, or that starts at a share that was deleted and undeleted again; for (b): a request to a non-public endpoint that is answered 2xx with correct credentials and must be refused without. distinct = FNV-64 of (world refs, method, chain) resp. (configuration, auth mode, method, path, credential class)")
+			"non-trivial = a request whose chain has length >= 3 and is served, or is refused only because of its LAST hop / the share's state (deleted, expired, not transitive) while every earlier condition holds, or that starts at a share that was deleted and undeleted again; for (b): a request to a non-public endpoint that is answered 2xx with correct credentials and was refused under every wrong-credential class. distinct = FNV-64 of (world refs, method, chain) resp. (configuration, auth kind, method, symbolic path)")
 }
 
 type reqResult struct {
@@ -510,8 +511,8 @@ func writeCase(w *world, method string, chain []*node, msg string) {
 
 func TestShareChains(t *testing.T) {
 	maxLen := evid.Pick(3, 4)
-	maxAlpha := evid.Pick(13, 11)
-	evid.Check(t, 250, 600, func(t *rapid.T) {
+	maxAlpha := evid.Pick(13, 14)
+	evid.Check(t, 220, 200, func(t *rapid.T) {
 		w := genWorld(t)
 		runWorld(t, w, maxLen, maxAlpha)
 	})
